@@ -170,7 +170,7 @@ impl Prop for C07 {
         ]
     }
     fn n_cases(&self, tier: Tier) -> u64 {
-        tier.pick(800, 5000)
+        tier.pick(5000, 30000)
     }
     fn timeout_s(&self, tier: Tier) -> u64 {
         tier.pick(90, 240)
